@@ -73,6 +73,25 @@ impl IdealTree {
         }
         hash2(&self.node_rec(level + 1, 2 * index, dh), &self.node_rec(level + 1, 2 * index + 1, dh))
     }
+    /// like `node`, remembering every node computed on the way in `cache` (one observation of a
+    /// large tree asks for many overlapping subtrees)
+    pub fn node_cached(&self, level: usize, index: u64, dh: &[BigUint], cache: &mut std::collections::HashMap<(usize, u64), BigUint>) -> BigUint {
+        if level == self.depth {
+            return self.leaf(index);
+        }
+        if let Some(v) = cache.get(&(level, index)) {
+            return v.clone();
+        }
+        let span = 1u64 << (self.depth - level);
+        let lo = index * span;
+        let v = if self.leaves.range(lo..lo + span).next().is_none() {
+            dh[level].clone()
+        } else {
+            hash2(&self.node_cached(level + 1, 2 * index, dh, cache), &self.node_cached(level + 1, 2 * index + 1, dh, cache))
+        };
+        cache.insert((level, index), v.clone());
+        v
+    }
     pub fn root(&self) -> BigUint {
         self.node(0, 0)
     }
